@@ -23,6 +23,11 @@ CLAIMED = {
             "(re-decided by cvc5) over all valuations; counterexamples become concrete workspaces replayed against the real analyzer.",
             "Callee contracts (index lookups, set membership are deterministic observers), rustc's MIR, no unwinding edges. globals/globalsRegex and per-checker routing are outside.",
             "DESIGN.md §2 C20"),
+    "C36": ("Kani/CBMC on DiagnosticSeverityFilter::allows + MIR-to-SMT symbolic execution (z3/cvc5) of the async bodies of output_result and run_check; native replay with the real emmylua_check binary",
+            "Solver verdicts: the severity filter over all filter x severity pairs (CBMC); the exit-status fold of output_result over every sequence of <= 2 files x <= 2 diagnostics with "
+            "symbolic severities and flags (z3 over all paths of the compiled async state machine); structural obligations on filter-before-scan, written list == scanned list, one task per file.",
+            "Awaits complete (poll returns Ready); Vec::retain / slice iteration follow their std contracts; report writers' contents, scheduling and >2x2 sequences are outside.",
+            "DESIGN.md §2 C36"),
 }
 
 NA = {}
@@ -71,7 +76,7 @@ def main():
         "engines": [
             {"name": "K", "path": "/verif/lib/kanirun.py", "serves_properties": sorted(CLAIMED),
              "kind_free_text": "Kani 0.68 proof harnesses (/verif/kani/*) over the real crates, CBMC 6.11 + cadical, unwinding assertions on, native replay"},
-            {"name": "M", "path": "/verif/mirsmt", "serves_properties": ["C20"],
+            {"name": "M", "path": "/verif/mirsmt", "serves_properties": ["C20", "C36"],
              "kind_free_text": "symbolic execution of rustc's MIR of the real functions into SMT (z3, cross-checked with cvc5)"},
         ],
         "checks": checks,
